@@ -126,7 +126,7 @@ func runC02(c TreeCase, o *vk.Obs) string {
 	if c.Beta >= 1000 {
 		c.Beta = 999
 	}
-	r, msg := runTree(c, mode{depth: true}, o)
+	r, msg := runTree(c, mode{depth: true, model: true}, o) // contents are checked too (large trees)
 	if msg != "" {
 		return msg
 	}
